@@ -193,7 +193,7 @@ def program(rng, size='small', big_gap=False, aligns=True, data=True, consts=Tru
     return '\n'.join(out) + '\n', meta
 
 
-NSCEN = 18
+NSCEN = 19
 
 
 def scenarios(rng, n):
@@ -330,6 +330,16 @@ def scenarios(rng, n):
                 elif l.split()[0] in ('j', 'call', 'tail'):
                     meta.append({'line': i, 'kind': l.split()[0], 'label': l.split()[1], 'text': l})
             add(src, meta)
+        elif t == 18:
+            # pseudo-instructions with LITERAL operands whose expansion (or one half of it) is compressible
+            rd = rng.choice(['x8', 'x9', 't0', 'a5', 'sp', 'x1'])
+            hi = rng.choice([1, 0x40021, 0x20004, 0x7ffff, 0xfffff, 0x12345])
+            lo = rng.choice([1, 4, 8, 12, 24, 31, -1, -4, -32, 16, -16, 496, -512, 0])
+            lines = ['li {}, {}'.format(rd, (hi << 12) + lo), 'li {}, {}'.format(rng.choice(['x8', 't1', 'a0']), rng.choice([0, 1, 31, -32, -1])),
+                     'mv {}, {}'.format(rng.choice(['x8', 'a0', 't0']), rng.choice(['x9', 'a1', 'x0'])), 'nop', 'ret', 'jr t0', 'jalr a5',
+                     'li {}, {}'.format(rd, rng.choice([2047, -2048, 32, -33]))]
+            rng.shuffle(lines)
+            add('\n'.join(lines) + '\n')
         else:
             src = 'start:\nauipc x5, %hi(%offset(start))\njalr x0, x5, %lo(%offset(start))\nlui x6, %hi(start)\nlw x7, x6, %lo(start)\n'
             add(src)
